@@ -26,6 +26,7 @@ func init() {
 }
 
 func runC44(c *eng.Ctx) {
+	defer runC44Restore(c)
 	p := c.P
 	A := "rules:AlertingRule"
 	f := c.Fn(A + ".Eval")
